@@ -89,6 +89,9 @@ class TreeLayout:
 
         # Assign the `node.y`, note the left/right child nodes, and recurse
         node.y = level
+        # Discard the thread left behind by an earlier layout of this node
+        if getattr(node, "thread", None) is not None:
+            del node.thread
         left = node.left
         right = node.right
         self.measure(left, level + 1, left_extremes)
